@@ -39,15 +39,27 @@ fn options(dir: &str) -> serde_json::Value {
         Ok(Err(e)) => return json!({"dir": dir, "status": "error", "error": e.to_string()}),
         Err(_) => return json!({"dir": dir, "status": "panic"}),
     };
-    let mut opts: Vec<String> = infos.verif_used_options().into_iter().map(|o| format!("{:?}", o)).collect();
-    opts.sort();
-    let mut keys: Vec<String> = infos.get_icu_keys().map(|k| k.path().to_string()).collect();
-    keys.sort();
-    keys.dedup();
-    json!({"dir": dir, "status": "ok", "options": opts, "data_keys": keys,
-           "locales": infos.get_locales().map(|l| l.to_string()).collect::<Vec<_>>(),
-           "langids": infos.get_locales_langids().map(|l| l.to_string()).collect::<Vec<_>>(),
-           "namespaces": infos.get_namespaces().map(|it| it.map(|n| n.to_string()).collect::<Vec<_>>())})
+    // every API call on its own: a panic is attributed to the call
+    let infos = std::panic::AssertUnwindSafe(infos);
+    let mut panics: Vec<&str> = Vec::new();
+    let opts = std::panic::catch_unwind(|| {
+        let mut opts: Vec<String> = infos.verif_used_options().into_iter().map(|o| format!("{:?}", o)).collect();
+        opts.sort();
+        opts
+    })
+    .unwrap_or_else(|_| { panics.push("get_icu_keys_inner"); vec![] });
+    let keys = std::panic::catch_unwind(|| {
+        let mut keys: Vec<String> = infos.get_icu_keys().map(|k| k.path().to_string()).collect();
+        keys.sort();
+        keys.dedup();
+        keys
+    })
+    .unwrap_or_else(|_| { panics.push("get_icu_keys"); vec![] });
+    let locales = std::panic::catch_unwind(|| infos.get_locales().map(|l| l.to_string()).collect::<Vec<_>>()).unwrap_or_else(|_| { panics.push("get_locales"); vec![] });
+    let langids = std::panic::catch_unwind(|| infos.get_locales_langids().map(|l| l.to_string()).collect::<Vec<_>>()).unwrap_or_else(|_| { panics.push("get_locales_langids"); vec![] });
+    let namespaces = std::panic::catch_unwind(|| infos.get_namespaces().map(|it| it.map(|n| n.to_string()).collect::<Vec<_>>())).unwrap_or_else(|_| { panics.push("get_namespaces"); None });
+    json!({"dir": dir, "status": if panics.is_empty() { "ok" } else { "panic" }, "panics": panics, "options": opts, "data_keys": keys,
+           "locales": locales, "langids": langids, "namespaces": namespaces})
 }
 
 fn main() {
